@@ -2483,7 +2483,15 @@ where
                         if self_delineated_value {
                             Ok(value)
                         } else {
-                            self.peek_end_of_value().map(|()| value)
+                            match self.peek_end_of_value() {
+                                Ok(()) => Ok(value),
+                                Err(e) => {
+                                    if e.is_io() {
+                                        self.de.read.set_failed(&mut self.failed);
+                                    }
+                                    Err(e)
+                                }
+                            }
                         }
                     }
                     Err(e) => {
